@@ -19,6 +19,7 @@ Quiescent ==
   /\ \A w \in Workers : cmdQ[w] = <<>> /\ evtQ[w] = <<>> /\ runq[w] = <<>>
   /\ backend.inflight = <<>>
   /\ \A p \in Pids : ~PendingTimeout(proc[p])
+  /\ obs.line >= Len(Lines)              \* every line of the session has been submitted
 
 (* ---------------- C04 ---------------- *)
 NoDup(s) == \A i, j \in 1..Len(s) : s[i] = s[j] => i = j
